@@ -242,6 +242,25 @@ add(property='C09', id='C09-image-index', status='fixed', commit='09399f0', clau
                               surf(R=30.0, t=45.0, mat=glass(1.5))], ap=('EPD', 8.0), fields=(0.0, 3.0), img=glass(1.5)),
                 'dist': 'hexapolar', 'n': 2, 'fld': 1, 'wl': 0, 'extras': False})
 
+_c11_spec = spec([surf(R=40.0, t=5.0, mat=glass(1.6), stop=True), surf(R=-60.0, t=40.0)], ap=('EPD', 8.0), fields=(0.0, 3.0))
+add(property='C11', id='C11-odd-padding', status='fixed', commit='70a9198', clause='psf_on_requested_grid',
+    what='fixed: property=C11 70a9198 odd grid_size - num_rays gave a (grid_size-1)^2 PSF and a Strehl ratio read next to the '
+         'peak',
+    reproducer={'spec': _c11_spec, 'N': 24, 'G': 65, 'fld': 0, 'defocus': 0.0, 'clip': False, 'ideal': True, 'mtf': True})
+add(property='C11', id='C11-mtf-frequency-axis', status='fixed', commit='4fa07f3', clause='mtf_frequency_axis',
+    what='fixed: property=C11 4fa07f3 FFTMTF frequency axis wrong by grid_size/1000 (and view() failed for odd grid_size)',
+    reproducer={'spec': _c11_spec, 'N': 32, 'G': 128, 'fld': 0, 'defocus': 0.3, 'clip': False, 'ideal': False, 'mtf': True})
+add(property='C11', id='C11-clipped-normalisation', status='open', clause='psf_is_squared_modulus_of_dft',
+    what='FFTPSF normalises the amplitude by the mean intensity over all pupil samples (clipped ones included) but the '
+         'reference peak by the number of non-zero samples: with k of n samples clipped the PSF is too large by (n/(n-k))^2 '
+         '(peak > 100, Strehl > 1 for an unaberrated clipped pupil); which of the two normalisations is intended is a '
+         'maintainer decision, recorded',
+    region='pupil with at least one zero-intensity sample (ray clipped by an aperture)',
+    weakened_relation='PSF equals |DFT|^2 x 100 / (number of non-zero samples)^2 (shape, energy ratio and MTF still checked)',
+    reproducer={'spec': spec([surf(R=40.0, t=5.0, mat=glass(1.6), stop=True), surf(R=-60.0, t=40.0, ap=dict(r_max=3.0, r_min=0.0))],
+                             ap=('EPD', 8.0), fields=(0.0, 3.0)),
+                'N': 24, 'G': 64, 'fld': 0, 'defocus': 0.0, 'clip': True, 'ideal': False, 'mtf': False})
+
 for _e in F:
     if _e['id'] == 'C13-caller-arrays':
         _e['reproducer']['spec']['fields'][1].update(vx=0.2, vy=0.3)
